@@ -84,7 +84,9 @@ func isConnectionSpecific(k []byte) bool {
 
 func ToLower(b []byte) []byte {
 	for i := range b {
-		b[i] |= 32
+		if b[i] >= 'A' && b[i] <= 'Z' {
+			b[i] |= 32
+		}
 	}
 
 	return b
